@@ -88,11 +88,15 @@ type c01Session struct {
 	OrderB  bool // park the (first) Monitor call after its reply while After[0] is committed and its notification handled
 	OrderB2 bool // same for the additional monitor
 	Own     bool // the last transaction is the client's own
+	Strad   int  // 1 (2): the notification handler is parked before its first blocking synchronisation operation while the reply of the first (additional) monitor is applied
 }
 
 func (s c01Session) cfg() c01Cfg { return c01Cfgs()[s.Cfg] }
 
 func (s c01Session) String() string {
+	if s.Strad > 0 {
+		return fmt.Sprintf("method=%s monitors=%s notification handler parked at its first synchronisation point while the reply of monitor #%d is applied", s.Method, s.cfg().name, s.Strad)
+	}
 	return fmt.Sprintf("method=%s monitors=%s replyAfterNotification=%v/%v own=%v", s.Method, s.cfg().name, s.OrderB, s.OrderB2, s.Own)
 }
 
@@ -193,6 +197,15 @@ func runC01(r *ev.Run) {
 							o.Own = true
 							sessions = append(sessions, o)
 						}
+						if e2e.PointsAvailable() && ((ti+mi+ci)%2 == 1 || r.Tier == "thorough") {
+							b := base
+							b.Strad = 1
+							sessions = append(sessions, b)
+							if len(cfg.mons) > 1 {
+								b.Strad = 2
+								sessions = append(sessions, b)
+							}
+						}
 					}
 				}
 			}
@@ -265,7 +278,46 @@ func runC01(r *ev.Run) {
 					m.Tables = append(m.Tables, client.TableMonitor{Table: t, Fields: mon.tables[t]})
 				}
 				park := (mi == 0 && s.OrderB) || (mi == 1 && s.OrderB2)
-				if park {
+				if s.Strad == mi+1 {
+					park = true
+					arrived := pz.Hold("monitor:reply")
+					errCh := make(chan error, 1)
+					go func() { _, err := c.Monitor(ctx, m); errCh <- err }()
+					<-arrived
+					// reply received, not applied. Commit the next transaction: its notification handler runs up to its
+					// first blocking synchronisation operation and is parked there ...
+					pts := e2e.ThePoints()
+					parkedH := pts.HoldNextIn("(*ovsdbClient).update")
+					txnDone := make(chan struct{})
+					go func() { _, _ = env.Sys.TransactRef(alpha[s.After[0]].Ops); close(txnDone) }()
+					select {
+					case <-parkedH:
+						r.Add("handlers_parked", 1)
+					case <-txnDone: // no notification for this monitor
+					case <-time.After(5 * time.Second):
+					}
+					// ... while the Monitor call applies its reply ...
+					pz.Release("monitor:reply")
+					var merr error
+					mdone := false
+					select {
+					case merr = <-errCh:
+						mdone = true
+					case <-time.After(300 * time.Millisecond): // it waits for something the handler holds
+					}
+					// ... and then goes on
+					pts.Release()
+					if !mdone {
+						merr = <-errCh
+					}
+					<-txnDone
+					if merr != nil {
+						r.Violation("c01.monitor-error."+feature, fmt.Sprintf("%s [%s]: Monitor: %v", name(), s, merr), cse(merr.Error()))
+						return
+					}
+					pendingTxn = make(chan error, 1)
+					pendingTxn <- nil
+				} else if park {
 					arrived := pz.Hold("monitor:reply")
 					errCh := make(chan error, 1)
 					go func() { _, err := c.Monitor(ctx, m); errCh <- err }()
@@ -296,7 +348,9 @@ func runC01(r *ev.Run) {
 				r.Add("transitions", 1)
 				if d := c01Compare(ref, e2e.CacheState(ref, c), env.Sys.State(), monitored); d != "" {
 					kind := "initial"
-					if park {
+					if s.Strad == mi+1 {
+						kind = fmt.Sprintf("notification-straddles-reply.monitor%d", mi+1)
+					} else if park {
 						kind = "reply-after-notification"
 						if mi == 1 {
 							kind = "additional-monitor.reply-after-notification"
